@@ -244,6 +244,12 @@ def awaited_call(p, name_rx):
 
 
 def check_traits(chk, tier, seed, props):
+    """thorough: three generated harnesses (seed, seed+1, seed+2), quick: one"""
+    for s_ in ([seed] if tier == 'quick' else [seed, seed + 1, seed + 2]):
+        _check_traits(chk, tier, s_, props)
+
+
+def _check_traits(chk, tier, seed, props):
     """props: subset of {'C05','C15','C16','C18','C19'} to report under"""
     try:
         F, sc, d = xrun.harness(tier, seed)
@@ -858,6 +864,12 @@ def _mentions_inp_pos(v, inp, i, arity):
 
 
 def check_patterns(chk, tier, seed, props):
+    """thorough: three generated harnesses (seed, seed+1, seed+2), quick: one"""
+    for s_ in ([seed] if tier == 'quick' else [seed, seed + 1, seed + 2]):
+        _check_patterns(chk, tier, s_, props)
+
+
+def _check_patterns(chk, tier, seed, props):
     try:
         F, sc, d = xrun.harness(tier, seed)
     except xrun.HarnessRejected as e:
